@@ -18,6 +18,16 @@ def rfa_jobs(rng, k):
         kw, _a = R.gen_params(rng, strat, n)
         x, y, _m = R.gen_series(rng, 8, 60, ties_share=0.3)
         via = bool(rng.integers(0, 3) == 0)
+        if rng.integers(0, 4) == 0 and len(out) + 3 <= k:
+            # ONE strategy object asked for its series by several threads at once: rfa() does not change the object
+            holder = {}
+
+            def shared(strat=strat, n=n, kw=kw, x=x, y=y, holder=holder):
+                if "obj" not in holder:
+                    holder["obj"] = R.cls(strat)(x.copy(), y.copy(), n, **kw)
+                return holder["obj"].rfa
+            out += [("%s n=%d m=%d, one object shared by the threads" % (strat, n, len(x)), shared)] * 3
+            continue
 
         def factory(strat=strat, n=n, kw=kw, x=x, y=y, via=via):
             xs, ys = x.copy(), y.copy()
@@ -111,6 +121,39 @@ def domain_jobs(rng, k):
     return out
 
 
+def weaver_cold_jobs(rng, k):
+    """short fixed-shape Weaver programs that are NOT tried out beforehand (nothing of the library runs before the
+    first concurrent round)"""
+    from traffic_weaver import Weaver
+    out = []
+    for _ in range(k):
+        x, y, _m = R.gen_series(rng, 6, 40, ties_share=0.0)
+        t = int(rng.integers(0, 5))
+        n = int(rng.integers(2, 9))
+        if t == 0:
+            d, f = "recreate_from_average(%d) > integral_match" % n, \
+                (lambda x=x, y=y, n=n: (lambda a=x.copy(), b=y.copy(): Weaver(a, b).recreate_from_average(n).integral_match().get()))
+        elif t == 1:
+            method = ["linear", "constant", "cubic"][int(rng.integers(0, 3))]
+            g = int(rng.integers(5, 200))
+            d, f = "interpolate(n=%d, %s)" % (g, method), \
+                (lambda x=x, y=y, g=g, method=method: (lambda a=x.copy(), b=y.copy(): Weaver(a, b).interpolate(n=g, method=method).get()))
+        elif t == 2:
+            c = float(rng.uniform(-3, 3))
+            d, f = "repeat(%d) > shift_y > scale_x" % n, \
+                (lambda x=x, y=y, n=n, c=c: (lambda a=x.copy(), b=y.copy(): Weaver(a, b).repeat(n).shift_y(c).scale_x(2.0).get()))
+        elif t == 3:
+            d, f = "trend > normalize_y", \
+                (lambda x=x, y=y: (lambda a=x.copy(), b=y.copy(): Weaver(a, b).trend(lambda v: 0.5 * v + 1.0).normalize_y(0.0, 1.0).get()))
+        else:
+            lo, hi = float(x[1]), float(x[-2])
+            d, f = "truncate_by_value > append_one_sample", \
+                (lambda x=x, y=y, lo=lo, hi=hi: (lambda a=x.copy(), b=y.copy():
+                                                 Weaver(a, b).truncate_by_value(lo, hi).append_one_sample().get()))
+        out.append(("program " + d, f))
+    return out
+
+
 NO_THREADS = ("noise", "smooth")            # numpy.random is process-global by contract; FITPACK is third-party
 
 
@@ -148,34 +191,39 @@ def weaver_jobs(rng, k):
     return out
 
 
-FAMILIES = {"rfa": rfa_jobs, "interp": interp_jobs, "match": match_jobs, "search": search_jobs, "domain": domain_jobs,
+FAMILIES = {"weaver_cold": weaver_cold_jobs, "rfa": rfa_jobs, "interp": interp_jobs, "match": match_jobs, "search": search_jobs, "domain": domain_jobs,
             "weaver": weaver_jobs}
 
 
 def plan(tier, shards=2):
     n = 3 if tier == "quick" else 60
-    return [{"kind": "threads", "start": p * n, "count": n} for p in range(shards)]
+    cold = 4 if tier == "quick" else 24
+    # every "threads_cold" spec is a process of its own whose FIRST use of the library is a concurrent round
+    return [{"kind": "threads", "start": p * n, "count": n} for p in range(shards)] + \
+        [{"kind": "threads_cold", "start": 1000 + p, "count": 1} for p in range(cold)]
 
 
-def run_case(ctx, families, idx):
+def run_case(ctx, families, idx, cold=False):
     rng = ctx.rng("threads", idx)
-    cid = ctx.case_id("threads", idx)
+    cid = ctx.case_id("threads_cold" if cold else "threads", idx)
     fam = families[int(rng.integers(0, len(families)))]
+    if cold and fam == "weaver":        # that family tries its programs out while generating them
+        fam = "weaver_cold"
     jobs = FAMILIES[fam](rng, 8)
     if len(jobs) < 2:
         return
     ctx.judged()
     ctx.count("threads:%s" % fam)
-    if threads.isolation(ctx, cid, jobs, fam):
+    if threads.isolation(ctx, cid, jobs, fam, cold=cold):
         ctx.nontriv("threads", fam, idx)
     if idx % 10 == 1:
         ctx.sample({"concurrent_requests": [d for d, _f in jobs], "family": fam})
 
 
 def run(ctx, spec, families):
-    for idx in range(spec["start"], spec["start"] + spec["count"]):
-        run_case(ctx, families, idx)
+    for j, idx in enumerate(range(spec["start"], spec["start"] + spec["count"])):
+        run_case(ctx, families, idx, cold=(spec.get("kind") == "threads_cold" and j == 0))
 
 
 def monitors(families):
-    return ["threads:" + f for f in families]
+    return ["threads:" + f for f in families] + ["threads:first_use:" + ("weaver_cold" if f == "weaver" else f) for f in families]
